@@ -164,5 +164,5 @@ def oracle(case):
 
 
 SUBS = [
-    Sub('structure', vine_case(), oracle, quick=1600, thorough=48000, shrink=True),
+    Sub('structure', vine_case(), oracle, quick=1600, thorough=96000, shrink=True),
 ]
